@@ -55,7 +55,20 @@ KuShapes == { Sh("ku", << <<k>> >>) : k \in { "digsig", "all9", "none", "long" }
 SubjectShapes == { Sh("subject", << <<s>> >>) : s \in { "cn-only", "empty", "multi-cn", "cn-ip", "cn-wild", "cn-nul", "all-attrs",
                                                        "multi-valued-rdn", "unknown-attr" } }
 
-Shapes == PolicyShapes \cup SanShapes \cup NcShapes \cup AiaShapes \cup CrldpShapes \cup QcShapes \cup TorShapes
+(* Name collisions: names that are DISTINCT AS BYTES BUT EQUAL UNDER A PLAUSIBLE NORMALISATION
+   (ASCII case folding, a trailing dot, the same host inside a URI, an IP address written as
+   text) or exact duplicates, spread over the subject CN and the SAN - the inputs on which a
+   collection built from a map, or sorted with a normalising comparison, loses its order.
+   A shape is [x |-> "names", v |-> <<cn tokens (0 or 1), SAN tokens>>]. *)
+NameVar == { "base", "upper", "m1", "m2", "m3", "m4", "dot", "dup", "uri-base", "uri-upper", "ip-text", "ip" }
+NameShapes ==
+  { Sh("names", <<c, n>>) : c \in Tok({ "base", "upper", "dot" }, 0, 1),
+                            n \in Tok(NameVar, 2, 2) \cup { <<"base", "upper", "m1">>,
+                                                         <<"base", "upper", "m1", "m2", "m3", "m4">>,
+                                                         <<"uri-base", "uri-upper", "base", "upper">>,
+                                                         <<"email-base", "email-upper", "base", "dot">> } }
+
+Shapes == NameShapes \cup PolicyShapes \cup SanShapes \cup NcShapes \cup AiaShapes \cup CrldpShapes \cup QcShapes \cup TorShapes
           \cup CabfShapes \cup SctShapes \cup BcShapes \cup KidShapes \cup KuShapes \cup SubjectShapes
 
 -----------------------------------------------------------------------------
@@ -94,8 +107,10 @@ OpWellFormed(prog) == Len(prog) \in 1..2 /\ \A i \in 1..Len(prog) : prog[i] \in 
    succeeded. *)
 (* "skip": the candidate parent of that key shape is not itself a certificate the
    parser accepts, so the operation does not exist for it. *)
-OpOutcomes(o) == IF o.op = "CheckSignatureFrom" /\ o.a \notin { "self", "issuer", "unrelated" }
-                 THEN Outcomes \cup { "skip" } ELSE Outcomes
+(* "notrun" (Inputs!NotRun): the harness did not apply the operation because it had already
+   hung / killed the worker three times in this run. *)
+OpOutcomes(o) == (IF o.op = "CheckSignatureFrom" /\ o.a \notin { "self", "issuer", "unrelated" }
+                  THEN Outcomes \cup { "skip" } ELSE Outcomes) \cup NotRun
 
 OpAllowed(o, res) ==
   /\ res.o \in OpOutcomes(o)
